@@ -138,7 +138,8 @@ def e2e_case(args):
     import random
     import threading
 
-    seed, ts_name, max_pdu, chunk_recv, chunk_send = args
+    seed, ts_name, max_pdu, chunk_recv, chunk_send = args[:5]
+    label_name = args[5] if len(args) > 5 else ts_name  # the transfer syntax the dataset's own file meta declares
     from pydicom import dcmread
     from pydicom.dataset import Dataset, FileMetaDataset
     from pydicom import uid as U
@@ -193,7 +194,7 @@ def e2e_case(args):
 
         expected_raw = encode(orig, ts.is_implicit_VR, ts.is_little_endian, ts.is_deflated)
         orig.file_meta = FileMetaDataset()
-        orig.file_meta.TransferSyntaxUID = ts
+        orig.file_meta.TransferSyntaxUID = getattr(U, label_name)
         orig.file_meta.MediaStorageSOPClassUID = orig.SOPClassUID
         orig.file_meta.MediaStorageSOPInstanceUID = orig.SOPInstanceUID
         if chunk_send:
@@ -288,8 +289,14 @@ def run(ctx):
     jobs = []
     TS = ["ImplicitVRLittleEndian", "ExplicitVRLittleEndian", "ExplicitVRBigEndian", "DeflatedExplicitVRLittleEndian"]
     for i in range(ctx.n(24, 600)):
-        jobs.append((ctx.rng.getrandbits(30), TS[i % 4], ctx.rng.choice([0, 7, 64, 1000, 16382]) if False else ctx.rng.choice([0, 1024, 4096, 16382]),
-                     ctx.rng.random() < 0.5, ctx.rng.random() < 0.4))
+        ts_name = TS[i % 4]
+        # the dataset's own label: the accepted context's syntax, or another one send_c_store converts from
+        # (uncompressed little endian <-> deflated <-> implicit; big endian only to itself)
+        label = ts_name
+        if ts_name != "ExplicitVRBigEndian" and ctx.rng.random() < 0.5:
+            label = ctx.rng.choice([t for t in TS if t not in (ts_name, "ExplicitVRBigEndian")])
+        jobs.append((ctx.rng.getrandbits(30), ts_name, ctx.rng.choice([0, 1024, 4096, 16382]),
+                     ctx.rng.random() < 0.5, ctx.rng.random() < 0.4, label))
     pool = mp.get_context("fork").Pool(processes=12, maxtasksperchild=10)
     try:
         results = pool.map(_job, jobs, chunksize=1)
@@ -298,7 +305,7 @@ def run(ctx):
         pool.join()
     for job, r in zip(jobs, results):
         case = ["e2e", *job]
-        ctx.case(case, kind=f"e2e:{job[1]}:recv{'C' if job[3] else 'M'}:send{'C' if job[4] else 'S'}")
+        ctx.case(case, kind=f"e2e:{job[1]}:recv{'C' if job[3] else 'M'}:send{'C' if job[4] else 'S'}" + (":converted" if job[5] != job[1] else ""))
         if r.get("hang") or "harness_error" in r or r.get("error"):
             ctx.diff(case, r, "n/a", "scenario harness failed")
             continue
